@@ -1306,6 +1306,14 @@ PENDING_FINDINGS = {
     # for the exact replays and the proposed patches)
     'quirk:' + k: v for k, v in QUIRKS.items()
 }
+# exact failing inputs (key = api:<sha1 of the GIR text, 12 hex digits>:api), kept in corpus/C06/05-pending.json
+PENDING_FINDINGS.update({
+    'api:2c679831781b:api':
+        'girparser.c end_type clears ctx->current_typed: an <attribute> that FOLLOWS the <type> (or <callback>) child '
+        'of a <parameter>, <return-value>, <field>, <property> or class-level <constant> is attached to the '
+        'enclosing function / class instead (corpus case P1; the generator writes <attribute> before the type, '
+        'as the scanner does)',
+})
 
 TRANSFER = {(False, False): 'none', (False, True): 'container', (True, False): 'full', (True, True): 'full+container'}
 
@@ -2404,6 +2412,12 @@ def run(ctx):
     cnt = Counter()
     register_pending(ctx)
     cb_future = Pipeline.start_c_build(ctx)
+    san_future = None
+    if ctx.tier == 'thorough':
+        import cbuild as _cbuild
+        _ex = concurrent.futures.ThreadPoolExecutor(max_workers=1)
+        san_future = _ex.submit(lambda: _cbuild.CBuild(os.path.join(ctx.scratch, 'san'), sanitize=True).compile_all())
+        _ex.shutdown(wait=False)
     ctx.prove(['gen_typelib_layout', 'gen_typelib_consts'], ['GIVerif.Props.C06'], 'GIVerif.Props.C06')
     ctx.log('proofs checked')
     pipe = Pipeline(ctx, cb_future)
@@ -2470,26 +2484,34 @@ def run(ctx):
     if ctx.tier == 'thorough':
         try:
             import cbuild
-            san = cbuild.CBuild(os.path.join(ctx.scratch, 'san'), sanitize=True).compile_all()
+            san = san_future.result()
             sanc = san.compiler()
-            nsan = 0
-            for c in (corpus + dep_cases + cases)[:600]:
+            import shutil
+
+            def san_one(c):
                 d = pipe.newdir()
-                for (dns, dver), dtext in zip(c.get('dep_ids', []), c.get('deps', [])):
-                    with open(os.path.join(d, '%s-%s.gir' % (dns, dver)), 'w', encoding='utf-8') as f:
-                        f.write(dtext)
-                gir = os.path.join(d, '%s-%s.gir' % (c['ns'], c['version']))
-                with open(gir, 'w', encoding='utf-8') as f:
-                    f.write(c['gir'])
-                rc, so, se = cbuild.run_compiler(sanc, gir, os.path.join(d, 'o.typelib'), includedirs=[d],
-                                                 shared_library=c.get('shlib_option'))
-                nsan += 1
+                try:
+                    for (dns, dver), dtext in zip(c.get('dep_ids', []), c.get('deps', [])):
+                        with open(os.path.join(d, '%s-%s.gir' % (dns, dver)), 'w', encoding='utf-8') as f:
+                            f.write(dtext)
+                    gir = os.path.join(d, '%s-%s.gir' % (c['ns'], c['version']))
+                    with open(gir, 'w', encoding='utf-8') as f:
+                        f.write(c['gir'])
+                    rc, so, se = cbuild.run_compiler(sanc, gir, os.path.join(d, 'o.typelib'), includedirs=[d],
+                                                     shared_library=c.get('shlib_option'))
+                    return se
+                finally:
+                    shutil.rmtree(d, ignore_errors=True)
+
+            san_cases = (corpus + dep_cases + cases)[:600]
+            with concurrent.futures.ThreadPoolExecutor(max_workers=max(4, min(16, os.cpu_count() or 8))) as ex:
+                san_out = list(ex.map(san_one, san_cases))
+            nsan = len(san_out)
+            for c, se in zip(san_cases, san_out):
                 if 'runtime error' in se or 'AddressSanitizer' in se:
                     cnt.hit('fail:sanitizer')
                     ctx.report_failure(judge.api_key(c, 'sanitizer'),
                                        'ASan/UBSan build of g-ir-compiler reports: ' + se[-500:], replay_obj(c))
-                import shutil
-                shutil.rmtree(d, ignore_errors=True)
             cnt.hit('sanitizer:runs', nsan)
         except HarnessError as e:
             ctx.notes.append('sanitizer build not available: %s' % str(e)[-200:])
